@@ -185,10 +185,11 @@ OtherDialect == [cr |-> "blank", nlq |-> "keep", escnl |-> "quote", wsq |-> TRUE
 LibDialects == {LibDialect}
 TwoDialects == {LibDialect, OtherDialect}
 \* the knobs that can matter for an input (KnobsIrrelevant in MC_LexerLaws): the others are pinned
-DialectsFor(s) ==
+Pin(D, s) ==
     LET has(c) == \E i \in 1..Len(s) : s[i] = c
-    IN  {D \in Dialects : /\ (~has(CR) => D.cr = LibDialect.cr)
-                          /\ (~(has(DQ) /\ has(NL)) => D.nlq = LibDialect.nlq)
-                          /\ (~(has(BS) /\ has(NL)) => D.escnl = LibDialect.escnl)
-                          /\ (~has(DQ) => D.wsq = LibDialect.wsq)}
+    IN  [cr |-> IF has(CR) THEN D.cr ELSE LibDialect.cr,
+         nlq |-> IF has(DQ) /\ has(NL) THEN D.nlq ELSE LibDialect.nlq,
+         escnl |-> IF has(BS) /\ has(NL) THEN D.escnl ELSE LibDialect.escnl,
+         wsq |-> IF has(DQ) THEN D.wsq ELSE LibDialect.wsq]
+DialectsFor(s) == {Pin(D, s) : D \in Dialects}
 =============================================================================
